@@ -171,3 +171,8 @@ package hedgepolicy
 //@   ensures [C09.with_delay] result != nil && typeis(result, *hedgePolicy) && tc != nil && tc.maxHedges == 1 && clofn(tc.delayFunc) == fnid("BuilderWithDelay$1") && cellof(clobind(tc.delayFunc, 0), time.Duration) == delay && tc.onHedge == nil && tc.BaseAbortablePolicy != nil
 //@   havoc
 //@   modifies *
+
+// the default cancel condition (installed by Build when none is configured): any result cancels the outstanding hedges
+//@ func (*config).Build$1
+//@   ensures [C09.build.default_cancel_on_any_result] result
+//@   modifies nothing
